@@ -231,7 +231,7 @@ def flatten(F, inline_ids):
     if not inline_ids:
         return F, {}
     G = object.__new__(Facts)
-    G.__dict__.update({k: v for k, v in F.__dict__.items() if k not in ('bodies', '_by_path', '_children', '_acc')})
+    G.__dict__.update({k: v for k, v in F.__dict__.items() if k != 'bodies' and not k.startswith('_')})  # no per-Facts caches
     G.bodies = {}
     cache = {}
     report = {}
